@@ -729,6 +729,7 @@ def setup(tier):
         else:
             config2.add_route(name, pattern, traverse=trav)
     app2 = config2.make_wsgi_app()
+    _impl.update(seg0=dict(getattr(traversal, '_segment_cache', {}) or {}))
     _impl.update(cur=cur, app=app, app2=app2, mapper=config2.get_routes_mapper(), Request=Request, T=traversal,
                  base=dict(Request.blank('/').environ), vh=traversal.VH_ROOT_KEY)
 
@@ -860,7 +861,9 @@ def run_impl(case):
         if clear is not None:
             clear()
     if isinstance(getattr(T, '_segment_cache', None), dict):
+        # back to the IMPORT-TIME content (normally empty), not to "empty": a preloaded dictionary is part of the code
         T._segment_cache.clear()
+        T._segment_cache.update(_impl.get('seg0', {}))
     root = build_tree(case['tree'])
     return [_run_op(root, o) for o in case['ops']]
 
